@@ -244,7 +244,8 @@ def assign_case(draw, max_frames=12, max_centers=16, max_feat=4, md_share=4):
             case["scale"], case["offset"] = 1e-3, draw(st.sampled_from([1e5, -3e4, 1e6]))   # small spread, large common offset
         elif numeric == "near_tie" and dtype != "float32":
             # two centers a, b and frames whose distances to them differ by one part in 1e5 .. 1e7 (exact in float64)
-            L = draw(st.sampled_from([50000, 123457, 600000, 3000000]))
+            # (also values beyond 2**24: exact in int32 / int64 / float64, not in float32)
+            L = draw(st.sampled_from([50000, 123457, 600000, 3000000, 30000000, 400000000]))
             xs = [0, 2 * L + 1, L, L + 1] + [draw(st.integers(-L, 3 * L)) for _ in range(draw(st.integers(0, 4)))]
             case["X"] = [[x] + [0] * (f - 1) for x in xs]
             case["C"] = draw(st.sampled_from([[["row", 0], ["row", 1]], [["row", 1], ["row", 0]]]))
@@ -395,6 +396,43 @@ def run_assign(case):
           "md_path=" + path, "copies=%s" % any(s[0] == "copy" for s in case["X"])]
     return Info(len(Cx) >= 2 and used >= 2, cl)
 
+
+
+# ==========================================================================
+# thousands of centers in one md.Trajectory, a handful of frames (the frame-by-frame route of the assignment)
+
+@st.composite
+def many_centers_case(draw):
+    return {"n_centers": draw(st.sampled_from([2047, 2048, 2049, 2500, 4100])), "n_frames": draw(st.integers(1, 12)),
+            "n_atoms": draw(st.integers(4, 6)), "seed": draw(st.integers(0, 2 ** 31 - 1)),
+            "hits": draw(st.lists(st.integers(0, 10 ** 6), min_size=1, max_size=12))}
+
+
+def run_many_centers(case):
+    rng = np.random.RandomState(case["seed"])            # seed drawn by Hypothesis
+    k, n, na = case["n_centers"], case["n_frames"], case["n_atoms"]
+    top = R.make_topology(["CA"] * na)
+    Cx = (rng.normal(size=(k, na, 3)) * 0.5).astype(np.float32)
+    # every frame is a slightly perturbed copy of one chosen center (mostly late ones): its nearest center is known
+    picks = [h % k for h in case["hits"]][:n] + [k - 1] * max(0, n - len(case["hits"]))
+    picks = picks[:n]
+    X = (Cx[picks] + rng.normal(scale=1e-3, size=(n, na, 3))).astype(np.float32)
+    traj = md.Trajectory(X.copy(), top)
+    centers = md.Trajectory(Cx.copy(), top)
+    a, d = cutil.assign_to_nearest_center(traj, centers, md.rmsd)
+    a, d = np.asarray(a), np.asarray(d, dtype=float)
+    require(a.shape == (n,) and d.shape == (n,), "assign(rmsd, many centers): wrong shapes", a=a.shape, d=d.shape)
+    for i in range(n):
+        dist_i = md.rmsd(centers, traj[i]).astype(float)          # distances of frame i to every center
+        ai = int(a[i])
+        require(0 <= ai < k, "assign(rmsd, many centers): label out of range", got=ai, k=k)
+        require(dist_i[ai] <= dist_i.min() + 2e-3, "assign(rmsd, many centers): the assigned center is not at minimal distance",
+                frame=i, assigned=ai, d_assigned=float(dist_i[ai]), d_min=float(dist_i.min()), argmin=int(dist_i.argmin()),
+                planted=int(picks[i]))
+        require(abs(d[i] - dist_i[ai]) <= 2e-3, "assign(rmsd, many centers): reported distance is not the distance to the assigned "
+                "center", frame=i, reported=float(d[i]), true=float(dist_i[ai]))
+    late = any(p >= 2048 for p in picks)
+    return Info(k > 2048 and late, ["many_centers=%d" % k, "late_center_hit=%s" % late], key=[case[k_] for k_ in sorted(case)])
 
 # ==========================================================================
 # predict
@@ -1091,6 +1129,8 @@ CLAUSES = [
     Clause("assign", assign_case(), run_assign, quick=900, thorough=20000),
     Clause("assign_large", assign_case(max_frames=60, max_centers=80, max_feat=8, md_share=6), run_assign,
            quick=0, thorough=1500),
+    Clause("assign_many_centers_md", many_centers_case(), run_many_centers, quick=16, thorough=200,
+           doc="2047..4100 centers in one md.Trajectory, 1..12 frames planted next to chosen (mostly late) centers"),
     Clause("predict", predict_case(), run_predict, quick=400, thorough=7000),
     Clause("reassign_files", reassign_case(), run_reassign, quick=16, thorough=320),
     Clause("reassign_batches", reassign_case(batches=True), run_reassign, quick=12, thorough=192),
